@@ -1,6 +1,8 @@
 import GeomV.C16.Model
 import GeomV.C16.Spec
 import GeomV.C16.Layout
+import GeomV.C16.Reflect
+import GeomV.C16.WriterGen
 /-!
 Driver for C16.  `geomv_c16 judge` reads lines `file … => <implementation's answer>` (grammar in
 `harness/cmd/c16/main.go`) and prints one verdict per line:
@@ -148,7 +150,9 @@ def runWrite (c : Case) : Except Fault Written :=
       .ok ⟨⟨e.shpType, e.fields, rows⟩, res⟩
   | .f t ffs =>
     let fields := ffs.map fun f => (⟨name11 f.name, f.typ, f.size, f.prec⟩ : Field)
-    let (rows, res) := writeAllF ptEqBits fields c.recs
+    -- `writeAllG`: the row store with the encoder's cursor explicit, exact also after a call with more values than
+    -- columns (= `writeAllF` otherwise: `EndToEnd.lean`, `writeAllG_eq_writeAllF`)
+    let (rows, res) := writeAllG ptEqBits fields c.recs
     .ok ⟨⟨t, fields, rows⟩, res⟩
 
 /-! ## the byte-layout model (Layout.lean) run on the same case -/
@@ -504,5 +508,5 @@ open GeomV GeomV.C16 in
 def main (args : List String) : IO Unit := do
   let out ← IO.getStdout
   match args with
-  | ["judge"] => forEachLine fun l => out.putStrLn (judgeLine l)
+  | ["judge"] => forEachLine fun l => out.putStrLn (if l.startsWith "rfile " then Reflect.judgeReflectLine l else judgeLine l)
   | _ => IO.eprintln "usage: geomv_c16 judge"
